@@ -19,7 +19,7 @@ REQUIRED = ["check_order_irrelevant_for_accept", "valid_only_if", "key_is_from_t
             "tamper_evident", "tamper_evident_jwt", "tamper_evident_vp", "undefined_member_unsigned",
             "own_output_verifies_ld", "own_output_verifies_jwt", "own_presentation_verifies",
             "fact_verify_check_sequence", "fact_doVerifyVP_check_sequence", "fact_jsonldProof_check_sequence",
-            "fact_jwtSignature_check_sequence", "fact_parseJWT_check_sequence", "fact_validator_selection",
+            "fact_jwtSignature_check_sequence", "fact_parseJWT_check_sequence", "fact_validator_selection", "fact_issue_sequence",
             "fact_model_checks_are_the_source_checks", "fact_max_skew", "fact_supported_algs"]
 
 SCAN_KINDS = ("time", "flags", "trust", "revoked")
@@ -160,6 +160,18 @@ def run(ctx):
             ctx.violation("C01:own-output-rejected:" + label, f"document produced by the node's own issuer/wallet is rejected: {impl[i]}",
                           "own-output-rejected.jsonl", replay_text(i))
     ctx.oblige("oracle:own-output-verifies(impl)", own_rejected == 0, f"{own_rejected} rejected of {len(bases)}")
+
+    # the issuer refuses to sign (JSON-LD) what the context does not define — those members would not be covered by the signature
+    signed_undefined = 0
+    n_issue = 0
+    for i, op in enumerate(ops):
+        if op.get("op") == "issue":
+            n_issue += 1
+            if op.get("fmt") == "ldp_vc" and not op.get("allDefined") and impl[i] == "ok":
+                signed_undefined += 1
+                ctx.violation("C01:issuer-signed-undefined-member:" + op["label"], f"{op['label']}: Issue signed a JSON-LD credential with members its context does not define",
+                              "issuer-signed-undefined.jsonl", replay_text(i))
+    ctx.oblige("oracle:issuer-refuses-undefined-members(impl)", signed_undefined == 0, f"{signed_undefined} of {n_issue} Issue calls")
 
     # a credential revoked on the issuer's status list must be reported revoked whenever the verifier holds or can obtain a
     # valid list — also when, later, only a tampered list (or nothing) is served.  (Never having been able to fetch a list
